@@ -247,3 +247,11 @@ claim("C20", "structural rules over AST/CFG: role-based identification of R, R^d
       "documented-optional arguments before use; the classic WienerFilterCurvature is R^dagger N^-1 R + S^-1 made invertible with S^-1 as "
       "preconditioner. That the solvers reach the exact posterior, the sample covariances and the agreement with MGVI/MAP are "
       "numerical and not decided.", TRUST, "DESIGN.md section 9.8")
+
+claim("C28", "symbolic reading of the amplitude models over three abstract modes; normalisation identity and sibling (classic vs JAX) term comparison with sympy as normaliser",
+      "Decides only the amplitude clause: the JAX non-parametric and Matern amplitude models return, for both kinds, an amplitude "
+      "with sum_{k>0} multiplicity_k * a_k^2 = (fluctuations * total_volume)^2 - the identity behind 'the variance of a realisation "
+      "equals the square of the model's own fluctuation' for every grid and volume - and a zero mode equal to the total volume; the "
+      "classic and the JAX Matern amplitudes are the same function scale*sqrt(V)*(1+(k/cutoff)^2)^(slope/4). The classic "
+      "non-parametric amplitude, product spectra (slice/average fluctuation formulas) and the numerical agreement of whole fields are "
+      "not decided.", TRUST + " sympy 1.14 (offline wheelhouse) as algebraic normaliser.", "DESIGN.md section 9.8")
